@@ -86,6 +86,15 @@ def cases(tier: str, seed: int) -> list[dict]:
                     # the same with distributed loads along the members (consistent nodal loads of the member shape functions)
                     out.append({"an": "beam", "dim": bdim, "et": et, "theory": theory, "improper": not bool(k % 2), "frame": (k % 3 != 1), "dyn": (k % 4 == 1), "line": True})
                     k += 1
+        # exact symmetries of the coordinate axes (quarter and half turns, mirror images, with or without an integer shift): the image
+        # lies exactly on a global axis or plane again, possibly pointing the other way, so the mesh is recognised as 1-D / planar
+        for bdim in (2, 3):
+            for theory in ("EB", "Timo"):
+                for j, et in enumerate(gm.ET_1D):
+                    for improper in (False, True):
+                        out.append({"an": "beam", "dim": bdim, "et": et, "theory": theory, "improper": improper, "frame": (j % 3 == 2), "dyn": False, "exact": True,
+                                    "line": (j % 2 == 1), "shift": (k % 4 == 3)})
+                        k += 1
         # a 3-D member turned about its own axis ON THE SAME OBJECTS (the section axes are re-assigned on the beam of an assembled
         # simulation, loads turned likewise): the response turns with it
         for theory in ("EB", "Timo"):
@@ -336,6 +345,24 @@ def run_beam(case, ctx, rng):
     Q = random_orthogonal(rng, bdim, case["improper"])
     t = np.zeros(3)
     t[:bdim] = rng.uniform(-1, 1, bdim)
+    if case.get("exact"):
+        key += "/axis-symmetry"
+        ctx.default_key = key
+        # a signed permutation of the working axes with the requested determinant; single members always end up pointing along -x
+        # (the image most easily mistaken for the original), frames get any of them
+        for _ in range(200):
+            perm = rng.permutation(bdim) if frame else np.arange(bdim)
+            sg = rng.choice([-1.0, 1.0], size=bdim)
+            if not frame:
+                sg[0] = -1.0
+            Q = np.eye(3)
+            Q[:bdim, :bdim] = 0.0
+            Q[perm, np.arange(bdim)] = sg
+            if (np.linalg.det(Q) < 0) == bool(case["improper"]):
+                break
+        t = np.zeros(3)
+        if case.get("shift"):
+            t[:bdim] = rng.integers(-2, 3, bdim)
     detQ = float(np.linalg.det(Q))
     pts = [np.zeros(3), np.array([L1, 0, 0.0])]
     if frame:
@@ -424,6 +451,24 @@ def run_beam(case, ctx, rng):
     else:
         r1, r2 = u1[used1][:, 3:6], u2[idx][:, 3:6]
         ctx.check("beam-member-response", relerr(r2, detQ * (r1 @ Q.T)), 1e-7, key + "/rotations", et=et)
+    # internal forces are given in the member axes (i along the member, j the section axis given, k = i x j): N, Ty and Mz keep their
+    # values under any isometry, Tz, Mx and My change sign with a mirror image (k and the moment pseudo-vector do)
+    if not case.get("dyn"):
+        with ctx.monitored("no-exception", key + "/internal-forces/raised"):
+            c1 = m1.coord[m1.groupElem.connect].mean(axis=1) @ Q.T + t
+            c2 = m2.coord[m2.groupElem.connect].mean(axis=1)
+            de, ie = cKDTree(c2).query(c1)
+            if de.max() > 1e-8:
+                raise RuntimeError("twin meshes do not correspond element to element")
+            names = ["N", "Ty", "Mz"] if bdim == 2 else ["N", "Ty", "Tz", "Mx", "My", "Mz"]
+            with quiet():
+                f1 = {nm: np.asarray(s1.Result(nm, nodeValues=False), float) for nm in names}
+                f2 = {nm: np.asarray(s2.Result(nm, nodeValues=False), float)[ie] for nm in names}
+            fscale = max(np.abs(f1["N"]).max(), np.abs(f1["Ty"]).max(), 1e-300)
+            mscale = max(np.abs(f1["Mz"]).max(), 1e-300)
+            for nm in names:
+                sgn = detQ if nm in ("Tz", "Mx", "My") else 1.0
+                ctx.check("beam-internal-forces", float(np.abs(f2[nm] - sgn * f1[nm]).max()) / (mscale if nm.startswith("M") else fscale), 1e-6, key + "/internal-forces", et=et, name=nm)
     # closed form for a single Euler-Bernoulli / Timoshenko cantilever (static): response in member axes
     if not frame and not case.get("dyn") and not case.get("line"):
         sp = bcm.section_props(b, h)
